@@ -1,12 +1,107 @@
-(* C07 - placeholder while the proofs are written *)
+(* C07 - no application message is lost, duplicated or reordered across connection loss.
+   Theorems only (proofs in AF.Lemmas.NetL).  The model is Fix/Net.v: two worlds of the session
+   model Fix/Session.v (A = initiator object, B = acceptor object), two FIFO channels, and the actions
+   ASend / ADeliver / ABreak / AReconnect;  `settle fuel s` = drain what is in flight, and when the
+   link is down afterwards: reconnect (same objects, retained journals and counters) + Logon + drain;
+   `holds s` = the property decided on a settled state (quiescent, both ACTIVE, next_in of each =
+   next_out of the other, each application received exactly the peer's accepted sends, in order).
+
+   THE PROPERTY AT FULL STRENGTH would be
+       forall l : list action, exists f0, forall fuel, f0 <= fuel -> holds (settle fuel (run net0 l)) = true.
+   It is FALSE for the faithful model (and for the code): C07_all_schedules_refuted.
+   What is PROVED is the single-break family, for every n and every k <= n (induction; unbounded):
+   C07_single_break.  Schedules of that family are outside the known-finding class
+   C07-break-loses-resend-reply (`reply_in_flight` at the break), the refutation witnesses are inside.
+   General interleavings are not proved; they are explored by harness/c07.py (model BFS with state
+   hashing + two real connection objects), which is exploration, not proof. *)
 From Coq Require Import ZArith NArith List Bool.
 From AF Require Import Base.Sx Py.Str Fix.Session Fix.Net Lemmas.NetL.
 Import ListNotations.
 Open Scope Z_scope.
 
+(* First Logon exchange; A's application sends n messages (payloads m1 .. mn); the first n - k reach
+   B; the link breaks with the last k in flight (they are lost; both ends run their disconnect path);
+   then: new transport for the same two objects, Logon(next_out) from the initiator, everything in
+   flight delivered until nothing is pending.  Then (`recovered`): the network is quiescent, both ends
+   are ACTIVE, next_in of each = next_out of the other, all n sends had been accepted, B's application
+   has been handed exactly m1 .. mn once and in order, nothing went the other way, and `holds` is true.
+   Also: at the break no reply to a ResendRequest is in flight (outside the known-finding class). *)
+Theorem C07_single_break : forall (n k fuel : nat),
+  (k <= n)%nat -> Z.of_nat n + 3 <= 9223372036854775807 -> (k + 4 <= fuel)%nat ->
+  let before_break :=
+    [AReconnect; ADeliver SB; ADeliver SA] ++ repeat (ASend SA) (n - k + k) ++ repeat (ADeliver SB) (n - k) in
+  let s := settle fuel (run net0 (before_break ++ [ABreak])) in
+  reply_in_flight (run net0 before_break) = false
+  /\ quiescent s = true
+  /\ st (wa s) = ST_ACTIVE /\ st (wb s) = ST_ACTIVE
+  /\ nin (wa s) = nout (wb s) /\ nin (wb s) = nout (wa s)
+  /\ sa s = texts 1 n /\ gb s = map Some (texts 1 n) /\ sb s = [] /\ ga s = []
+  /\ holds s = true.
+Proof. exact single_break_nk. Qed.
+Print Assumptions C07_single_break.
+
+(* `texts 1 n` is the list of the payload texts "m1" .. "mn" *)
+Example C07_texts : texts 1 3 = [payload 1; payload 2; payload 3] /\ payload 17 = [109; 49; 55]%N.
+Proof. split; reflexivity. Qed.
+Print Assumptions C07_texts.
+
+(* D13.  Second break while the replies to the ResendRequest (the retransmission with PossDupFlag and the
+   gap fill) are in flight: after the final reconnect + Logon + quiescence the accepted message m1 has
+   not been delivered, A is stuck in RESENDREQ_HANDLING with next_num_out rewound to 2, B is stuck in
+   RESENDREQ_AWAITING still expecting 2.  (sched_double_break = REC dB dA sA BRK REC dB dA dA BRK) *)
 Theorem C07_double_break_refuted :
+  let before := run net0 (firstn 9 sched_double_break) in
   let n := settle 80 (run net0 sched_double_break) in
-  sa n = [payload 1] /\ gb n = [] /\ quiescent n = true
+  reply_in_flight before = true
+  /\ sa n = [payload 1] /\ gb n = [] /\ quiescent n = true /\ holds n = false
   /\ st (wa n) = ST_HANDLING /\ st (wb n) = ST_AWAITING /\ nout (wa n) = 2 /\ nin (wb n) = 2.
 Proof. exact double_break_refuted. Qed.
 Print Assumptions C07_double_break_refuted.
+
+(* Same class, silent variant: a gap fill is lost; the journaled gap fill is later read as covering one
+   number, the application message behind it is skipped: both ends ACTIVE, numbers match, m1 never
+   delivered.  (sched_silent_loss = REC BRK REC dB dA dA sA BRK) *)
+Theorem C07_silent_loss_refuted :
+  let before := run net0 (firstn 7 sched_silent_loss) in
+  let n := settle 80 (run net0 sched_silent_loss) in
+  reply_in_flight before = true
+  /\ sa n = [payload 1] /\ gb n = [] /\ quiescent n = true /\ holds n = false
+  /\ st (wa n) = ST_ACTIVE /\ st (wb n) = ST_ACTIVE
+  /\ nin (wa n) = nout (wb n) /\ nin (wb n) = nout (wa n).
+Proof. exact silent_loss_refuted. Qed.
+Print Assumptions C07_silent_loss_refuted.
+
+(* hence the property does not hold for all schedules: the settled state is quiescent (more fuel changes
+   nothing) and the property is false in it *)
+Theorem C07_all_schedules_refuted :
+  exists l, quiescent (settle 80 (run net0 l)) = true /\ holds (settle 80 (run net0 l)) = false.
+Proof.
+  exists sched_double_break.
+  destruct double_break_refuted as [_ [_ [_ [Q [H _]]]]]. split; assumption.
+Qed.
+Print Assumptions C07_all_schedules_refuted.
+
+(* non-vacuity, by computation in the kernel: n = 3, k = 2 (numbers after recovery: B expects 6 = A's next) *)
+Example C07_family_instance :
+  let n := settle 10 (run net0 (sched_before 1 2 ++ [ABreak])) in
+  holds n = true /\ gb n = [Some (payload 1); Some (payload 2); Some (payload 3)]
+  /\ nin (wb n) = 6 /\ nout (wa n) = 6 /\ nin (wa n) = 4 /\ nout (wb n) = 4.
+Proof. exact family_instance. Qed.
+Print Assumptions C07_family_instance.
+
+(* computed instances of the mirror direction and of both directions in flight at the break
+   (bounded instances: the general statements for these are explored by the harness, not proved) *)
+Example C07_instance_B_to_A :
+  holds (settle 20 (run net0 [AReconnect; ADeliver SB; ADeliver SA; ASend SB; ASend SB; ADeliver SA; ABreak])) = true.
+Proof. exact instance_B_to_A. Qed.
+Print Assumptions C07_instance_B_to_A.
+
+Example C07_instance_both_directions :
+  holds (settle 20 (run net0 [AReconnect; ADeliver SB; ADeliver SA; ASend SA; ASend SB; ASend SA; ABreak])) = true.
+Proof. exact instance_both_directions. Qed.
+Print Assumptions C07_instance_both_directions.
+
+(* the state / role numbers, the application message type and sys.maxsize used by Net.v are the code's *)
+Example C07_constants_tied : net_constants_ok = true.
+Proof. exact net_constants_tied. Qed.
+Print Assumptions C07_constants_tied.
